@@ -94,8 +94,8 @@ EXPORT int vfwprintf_s(FILE *restrict stream, const wchar_t *restrict fmt,
     }
 
 #if defined(HAVE_WCSSTR) || !defined(SAFECLIB_DISABLE_EXTENSIONS)
-    if (unlikely((p = wcsstr((wchar_t *)fmt, L"%n")))) {
-        if ((p - fmt == 0) || *(p - 1) != L'%') {
+    if (unlikely((p = safec_find_percent_wn(fmt)))) {
+        { /* any n conversion, whatever flags, width or length modifier */
             invoke_safe_str_constraint_handler("vfwprintf_s: illegal %n", NULL,
                                                EINVAL);
             return -(EINVAL);
